@@ -1,8 +1,14 @@
 open Ptgcheck
 open Vio
-(* case: MAL | nloc : ACC deps ; ACC deps / nloc : ...     dep = [io][ubt] *)
-let parse_dep s = { dp_in = (s.[0] = 'i');
-                    dp_guard = (match s.[1] with 'u' -> GUncond | 'b' -> GBinary | _ -> GTernary) }
+(* case: MAL | nloc : ACC deps ; ACC deps / nloc : ...     dep = [io][ubt] or [io][ubt].L.CT.CF
+   (L local definitions at the dependency level, CT / CF in front of the true / false call) *)
+let parse_dep s =
+  let l, ct, cf = match split_on '.' s with
+    | [_; a; b; c] -> int_of_string a, int_of_string b, int_of_string c
+    | _ -> 0, 0, 0 in
+  { dp_in = (s.[0] = 'i');
+    dp_guard = (match s.[1] with 'u' -> GUncond | 'b' -> GBinary | _ -> GTernary);
+    dp_ldefs = nat_of_int l; dp_ct = nat_of_int ct; dp_cf = nat_of_int cf }
 let parse_flow s =
   match words s with
   | acc :: deps ->
@@ -13,7 +19,7 @@ let parse_func s =
   match split_on ':' s with
   | [nl; fl] ->
     { fn_locals = nat_of_int (int_of_string nl + 1);   (* the generator always declares the parameter k *)
-      fn_ldef = O;
+      fn_pdefs = O;
       fn_flows = List.filter_map parse_flow (split_on ';' fl) }
   | _ -> failwith "bad function"
 let () =
